@@ -268,16 +268,18 @@ func runC13(c *core.Ctx, o Options) {
 	// ---- Z6 timers: after TakeTimeout a non-blocking test of the session context that returns
 	if s := newSess(c); s != nil {
 		if st := s.m.Method("start"); st != nil {
-			for _, g := range st.AnonFuncs {
-				isRoutine := false
-				an.AllInstrs(st, func(in ssa.Instruction) {
-					if gg, ok := in.(*ssa.Go); ok && an.StaticCallee(&gg.Call) == g {
-						isRoutine = true
+			// the functions start spawns: literals or named functions of the package
+			var routines []*ssa.Function
+			an.AllInstrs(st, func(in ssa.Instruction) {
+				if gg, ok := in.(*ssa.Go); ok {
+					if g := an.StaticCallee(&gg.Call); g != nil && len(g.Blocks) > 0 && g.Pkg == st.Pkg {
+						routines = append(routines, g)
+					} else {
+						c.Ob("Z6", "start", "go statement with a resolvable body", in.Pos()).Unknown("cannot resolve the function spawned here")
 					}
-				})
-				if !isRoutine {
-					continue
 				}
+			})
+			for _, g := range routines {
 				ok := false
 				an.AllInstrs(g, func(in ssa.Instruction) {
 					if sel, isSel := in.(*ssa.Select); isSel && !sel.Blocking && len(sel.States) == 1 && doneContext(sel.States[0].Chan) == "s.ctx" {
@@ -537,7 +539,7 @@ func errorsDrainerPremises(c *core.Ctx) string {
 func checkTeardownReach(c *core.Ctx, rule string) {
 	// handler constructors derive ctx/cancel from WithCancel(ctx) and Stop calls cancel (checked in the close chain)
 	for _, name := range []string{"NewAcceptorHandler", "NewInitiatorHandler"} {
-		fn := c.Func("", name)
+		fn := an.Delegate(c.Func("", name)) // the function that holds the constructor's body
 		if fn == nil {
 			continue
 		}
